@@ -115,3 +115,9 @@ package dispatch
 //@   nopanic
 //@   modifies *
 //@   loop 0 invariant idx: 0 - 1 <= rangeindex && rangeindex <= 281474976710656 && dwf(d)
+
+// Every piece reader handed out - whatever the state of the torrent - is wrapped so that closing it
+// counts as a read of this torrent (property C18: a served piece postpones the idle timeout).
+//@ func torrentAccessWatcher.GetPieceReader
+//@   requires w != nil && w.Torrent != nil
+//@   ensures watched: result1 == nil ==> result0 != nil && dyntype(result0) == typeid(*pieceReaderCloseWatcher) && unbox(result0, *pieceReaderCloseWatcher).w == w
